@@ -217,7 +217,7 @@ def record_backend_calls():
     from doit import dependency as dep
     calls, saved = [], []
     for cls in (dep.JsonDB, dep.DbmDB, dep.SqliteDB):
-        for name in ('set', 'remove', 'remove_all', 'dump'):
+        for name in ('get', 'in_', 'set', 'remove', 'remove_all', 'dump'):
             orig = cls.__dict__.get(name)
             if orig is None:
                 continue
@@ -465,6 +465,15 @@ def list_order(argv, ntasks):
     if 'definition' in argv:
         return base
     return sorted(base, key=tname)
+
+
+def cmd_shape(argv):
+    """the constructor of `Intro.Cmd` a command line maps to (key of the driver's `opensDb` table)"""
+    if argv[0] == 'list':
+        return 'list -s' if '-s' in argv else 'list'
+    if argv[0] == 'info':
+        return 'info --no-status' if '--no-status' in argv else 'info'
+    return argv[0]
 
 
 def probe_cmds(rng, ntasks, full=True):
@@ -823,6 +832,12 @@ def compare_probe(case, i, pr, m, out, checks, check_tags):
         elif argv[0] == 'clean':
             model_removes = m['cleanDry']['removes']
             model_db = m['cleanDry']['db']
+        reads = [c for c in r['calls'] if c[0] in ('get', 'in_')]
+        uses_db = m['opensDb'].get(cmd_shape(argv))
+        if uses_db is False and (reads or writes) and not crashed_cmd:
+            out.divs.append(dict(wit, what='DB accesses of a command that does not use the DB',
+                                 impl=[list(c) for c in (reads + writes)[:4]], model=[]))
+        out.count('trace:%s' % ('uses-db' if uses_db else 'no-db-access'))
         impl_writes = [[c[0], c[1]] for c in writes]
         want = [['remove', tname(t)] for t in model_removes]
         if impl_writes != want and not crashed_cmd:
@@ -1061,6 +1076,15 @@ def process_batch(batch):
         v = o.base
         if v.crash:
             st.count('impl:crash-' + str(v.crash[1]))
+        if v.divergence or o.divs:
+            # an alarm must be reproducible: confirm on a second execution in a fresh directory
+            o1 = run_case(case)
+            keep = [d for d in o.divs if any(d['what'] == e['what'] and d.get('cmd') == e.get('cmd') for e in o1.divs)]
+            if len(keep) < len(o.divs) or bool(o1.base.divergence) != bool(v.divergence):
+                st.count('flaky:divergence-not-reproduced')
+            o.divs = keep
+            if not o1.base.divergence:
+                v.divergence = None
         if v.divergence:
             i, what, impl, model = v.divergence
             st.divergence({'case': case_key(case), 'rendered': render(case), 'at_op': i, 'impl': impl, 'model': model,
